@@ -162,6 +162,12 @@ async def run_idle(spec: dict[str, Any], hist: History,
                             klass['during_write'] += 1
                         else:
                             klass['parked'] += 1
+        outsider: Session | None = None
+        if spec.get('outsider'):
+            outsider = Session(env, hist, nid + nwr + 2, sched,
+                               spec['seed'] * 91 + 7)
+            if not await outsider.start():
+                return
         for rnd in range(spec['rounds']):
             burst = spec['burst']
             if spec.get('early_done'):
@@ -223,6 +229,39 @@ async def run_idle(spec: dict[str, Any], hist: History,
                 s.idling = True           # type: ignore[attr-defined]
 
             async def writer_task(s: Session) -> None:
+                if outsider is not None:
+                    # messages arrive from a connection that has nothing
+                    # selected (maildir: they stay in new/); once the idlers
+                    # had time to learn of them, ONE session that selected
+                    # before the arrival changes or expunges the newest one
+                    # and nothing else happens afterwards
+                    if s is not writers[0]:
+                        return
+                    for _ in range(rng.choice([1, 1, 2])):
+                        if outsider.alive:
+                            await outsider.append(b'INBOX', None)
+                            counters['outsider_appends'] = counters.get(
+                                'outsider_appends', 0) + 1
+                    await settle(env, loop)
+                    await s.noop()
+                    if s.alive and s.shadow.count:
+                        top = b'%d' % s.shadow.count
+                        if rng.random() < 0.5:
+                            res = await s.store(top, False, rng.choice(
+                                [b'+FLAGS', b'FLAGS']), False,
+                                [rng.choice(FLAGS)])
+                        else:
+                            await s.store(top, False, b'+FLAGS', True,
+                                          [b'\\Deleted'])
+                            res = await s.cmd(b'EXPUNGE')
+                        if res.ok:
+                            counters['changes_to_outsider_arrivals'] = \
+                                counters.get(
+                                    'changes_to_outsider_arrivals', 0) + 1
+                            klass['during_write' if any(
+                                i.conn.draining for i in idlers)
+                                else 'parked'] += 1
+                    return
                 if spec.get('flood'):
                     # very many separate changes while the idler cannot
                     # keep up (its client reads slowly): no change log is so
@@ -247,6 +286,8 @@ async def run_idle(spec: dict[str, Any], hist: History,
                 and (burst or rng.random() < 0.5) else []
             if mover is not None and rng.random() < 0.4:
                 # only the mover acts in this round
+                for x in extra:
+                    x.close()
                 await asyncio.gather(*(idler_task(s) for s in idlers),
                                      mover_burst(max(1, burst)))
             else:
@@ -510,7 +551,9 @@ class C16(Check):
                    'rounds': rng.randint(1, 3),
                    'sched': idle_schedule(rng, nid),
                    'early_done': i % 4 == 3,
-                   'mover': i % 5 == 2}
+                   'mover': i % 5 == 2,
+                   'outsider': i % 4 == 1 or (backend == 'maildir'
+                                              and i % 2 == 0)}
             if i % 250 == 77:
                 yield {'seed': seed * 1_000_003 + 600_000 + i,
                        'backend': 'dict', 'nidlers': 1, 'nwriters': 1,
